@@ -28,7 +28,9 @@ EXPLANATION = (
     "second item with the same name is inserted; R15.5 every non-ClassVar option of a file/folder action schema is read "
     "by its form_request, and the parameter the create handler reads as `force` is the action's `force`; R15.6 a forced "
     "Folder.add_file (which skips the duplicate-name test) receives either the object the look-up by name returned or a "
-    "File constructed on the look-up's empty edge (listed exception: copy_file, callable only from restore_backup). NOT decided: "
+    "File constructed on the look-up's empty edge (listed exception: copy_file, callable only from restore_backup); R15.7 a look-up result that may be a deleted item "
+    "(include_deleted=True) is filed in a live dictionary only after restore()/`deleted = False`, a re-binding to a new object, or "
+    "on the not-deleted / not-found edge; describe_state of FileSystem/Folder/File stores nothing on the object. NOT decided: "
     "bounded-exhaustive sequence conformance against a reference model."
 )
 TECHNIQUE = "static: abstract interpreter over (in live, in deleted, flag) on every path of the partition-changing methods, CFG must-pass on create routes, option def-use"
@@ -548,6 +550,74 @@ def r15_6(ctx: Ctx) -> None:
 
 
 
+LIVE_DICTS = {"files": "deleted_files", "folders": "deleted_folders"}
+
+
+def r15_7(ctx: Ctx) -> None:
+    """An item obtained from a look-up that may return *deleted* items (include_deleted=True) is filed in a live dictionary only
+    after it was restored (x.restore() / x.deleted = False) or on the edge where its flag is known to be clear - otherwise the same
+    object is live and deleted at once.  And describe_state of the file-system classes stores nothing: the reported state is
+    computed from the dictionaries each time, not remembered."""
+    ix = ctx.ix
+    ctx.rule("R15.7", "a possibly-deleted look-up result enters a live dictionary only restored; describe_state keeps no memory")
+    n = 0
+    for fn in ix.functions:
+        if isinstance(fn.node, ast.Lambda) or not fn.path.startswith("src/primaite/simulator/file_system/"):
+            continue
+        ld = LocalDefs(fn.node)
+        maybe_deleted = set()
+        for nm in ld.defs:
+            for v, i in ld.all_values(nm):
+                if isinstance(v, ast.Call) and call_name(v) in ("get_file", "get_folder", "get_file_by_id", "get_folder_by_id"):
+                    inc = kwarg(v, "include_deleted")
+                    if inc is not None and not (isinstance(inc, ast.Constant) and inc.value is False):
+                        maybe_deleted.add(nm)
+        if not maybe_deleted:
+            continue
+        g = CFG(fn.node)
+        for nm in sorted(maybe_deleted):
+            files = [x for x in g.nodes if x.kind == "stmt" and isinstance(x.ast, ast.Assign) and any(
+                isinstance(t, ast.Subscript) and isinstance(t.value, ast.Attribute) and t.value.attr in LIVE_DICTS and unparse(t.value.value) == "self"
+                for t in x.ast.targets) and isinstance(x.ast.value, ast.Name) and x.ast.value.id == nm]
+            if not files:
+                continue
+            n += 1
+            cleared = {x.id for x in g.nodes if any(call_name(c) == "restore" and isinstance(c.func, ast.Attribute) and unparse(c.func.value) == nm for c in node_calls(x))
+                       or (x.kind == "stmt" and isinstance(x.ast, ast.Assign) and any(unparse(t) == f"{nm}.deleted" for t in x.ast.targets)
+                           and isinstance(x.ast.value, ast.Constant) and x.ast.value.value is False)}
+            rebinds = {x.id for x in g.nodes if x.kind == "stmt" and isinstance(x.ast, ast.Assign) and any(isinstance(t, ast.Name) and t.id == nm for t in x.ast.targets)
+                       and not (isinstance(x.ast.value, ast.Call) and call_name(x.ast.value) in ("get_file", "get_folder", "get_file_by_id", "get_folder_by_id"))}
+
+            def safe(e) -> bool:
+                if not (e.label and e.label[0] == "cond"):
+                    return False
+                t = unparse(e.label[1])
+                if t == f"{nm}.deleted":
+                    return e.label[2] is False
+                if t == nm:
+                    return e.label[2] is False  # nothing found: what is filed afterwards is a new object
+                return False
+
+            p = g.path_avoiding(files, safe, blocked_nodes=cleared | rebinds)
+            ctx.record("R15.7", ctx.key(fn, f"`{nm}` (look-up incl. deleted) is filed live only restored"), fn.loc(files[0].ast), p is None,
+                       f"every path from the look-up to `self.<live>[...] = {nm}` restores `{nm}`, re-binds it to a new object, or knows it is not deleted"
+                       if p is None else
+                       f"`{nm}` may be a deleted item (look-up with include_deleted=True) and is put into a live dictionary without being "
+                       f"restored: the same object is then both live and deleted", path_text(p))
+    ctx.floor("R15.7", "possibly-deleted look-up results filed live", n, 2)
+    for spec in ("FileSystem.describe_state", "Folder.describe_state", "File.describe_state"):
+        f = ix.method(spec)
+        bad = [f"line {x.lineno}: {unparse(x)[:60]}" for x in ast.walk(f.node) if isinstance(x, (ast.Assign, ast.AugAssign)) and any(
+            "self." in unparse(t) and not isinstance(t, ast.Name) for t in (x.targets if isinstance(x, ast.Assign) else [x.target]))]
+        bad += [f"line {c.lineno}: {unparse(c)[:60]}" for c in calls_in(f.node) if isinstance(c.func, ast.Attribute) and c.func.attr in (
+            "setdefault", "update", "append", "pop", "add", "clear") and unparse(c.func.value).startswith("self.")]
+        ctx.record("R15.7", ctx.key(f, "describe_state stores nothing on the object"), f.loc(), not bad,
+                   "computed afresh from the dictionaries" if not bad else
+                   "describe_state keeps part of its answer on the object: after the items change the remembered part is reported instead of the "
+                   "current live/deleted items", bad[:4])
+
+
+
 def check(ctx: Ctx) -> None:
     r15_1(ctx)
     r15_2(ctx)
@@ -555,3 +625,4 @@ def check(ctx: Ctx) -> None:
     r15_4(ctx)
     r15_5(ctx)
     r15_6(ctx)
+    r15_7(ctx)
